@@ -12,7 +12,7 @@ Local Open Scope list_scope.
 Definition contrib (name : string) (w : wpred) : list toks :=
   if wp_is_type w then
     match wp_bounded w with
-    | BPath false false 1 first => if String.eqb first name then wp_bounds w else []
+    | BPath false false 1 first => if String.eqb first name then trait_bounds (wp_bounds w) else []
     | _ => []
     end
   else [].
@@ -20,7 +20,7 @@ Definition contrib (name : string) (w : wpred) : list toks :=
 (** what one generic parameter contributes *)
 Definition pcontrib (name : string) (p : gparam) : list toks :=
   match gp_kind p with
-  | GType => if String.eqb (gp_name p) name then gp_bounds p else []
+  | GType => if String.eqb (gp_name p) name then trait_bounds (gp_bounds p) else []
   | _ => []
   end.
 
@@ -61,7 +61,7 @@ Qed.
 Lemma find_type_param_bounds name : forall l idx i p,
   find_type_param name l idx = Some (i, p) ->
   NoDup (map gp_name (filter (fun p => match gp_kind p with GType => true | _ => false end) l)) ->
-  flat_map (pcontrib name) l = gp_bounds p.
+  flat_map (pcontrib name) l = trait_bounds (gp_bounds p).
 Proof.
   induction l as [|p0 l IH]; intros idx i p H Hn; cbn [find_type_param] in H; [discriminate|].
   cbn [flat_map filter] in *. unfold pcontrib at 1.
@@ -79,7 +79,7 @@ Lemma find_deps_bounds tg g name d tg' :
 Proof.
   unfold find_deps_generic_bounds. intros H Hn. apply nodup_str_NoDup in Hn.
   destruct (find_type_param name (p_items (g_params g)) 0) as [[idx p]|] eqn:F; [|discriminate].
-  pose proof (fold_where_fst name (where_items g) (gp_bounds p) (push_others (p_items (g_params g)) 0 idx tg)) as Hf.
+  pose proof (fold_where_fst name (where_items g) (trait_bounds (gp_bounds p)) (push_others (p_items (g_params g)) 0 idx tg)) as Hf.
   destruct (fold_left _ _ _) as [b t2]. cbn [fst] in Hf. injection H as <- _. subst b.
   rewrite (find_type_param_bounds _ _ _ _ _ F Hn). reflexivity.
 Qed.
@@ -215,7 +215,7 @@ Section WhereInv.
   Proof.
     unfold find_deps_generic_bounds. intros H Hi Hw.
     destruct (find_type_param name (p_items (g_params g)) 0) as [[idx p]|]; [|discriminate].
-    pose proof (winv_fold_step name (where_items g) (gp_bounds p) _ (winv_push_others (p_items (g_params g)) 0 idx tg Hi) Hw) as Hs.
+    pose proof (winv_fold_step name (where_items g) (trait_bounds (gp_bounds p)) _ (winv_push_others (p_items (g_params g)) 0 idx tg Hi) Hw) as Hs.
     destruct (fold_left _ _ _) as [b t2]. injection H as _ <-. exact Hs.
   Qed.
 
